@@ -26,22 +26,23 @@ type mutexState struct {
 }
 
 type World struct {
-	i        *interpreter
-	now      value // current instant in ns since the Unix epoch: int64 or symv(Int64)
-	nowCount int
-	timers   []*mtimer
-	mutexes  map[*value]*mutexState
-	wgs      map[*value]int
-	onces    map[*value]bool
-	fs       *mfs
-	autoFire bool // fire timers when every goroutine is blocked
-	objID    int
-	logs     []string
-	hashCount int
-	unixCache map[int]value
-	place     map[int]byte
-	placeBack map[byte]value
-	servers   []*mserver
+	i           *interpreter
+	now         value // current instant in ns since the Unix epoch: int64 or symv(Int64)
+	nowCount    int
+	timers      []*mtimer
+	mutexes     map[*value]*mutexState
+	wgs         map[*value]int
+	onces       map[*value]bool
+	fs          *mfs
+	autoFire    bool // fire timers when every goroutine is blocked
+	objID       int
+	logs        []string
+	hashCount   int
+	unixCache   map[int]value
+	place       map[int]byte
+	placeBack   map[byte]value
+	servers     []*mserver
+	yieldOnRead bool
 }
 
 func newWorld(i *interpreter) *World {
